@@ -145,6 +145,8 @@ def run(tier, seed):
         by_id[str(nid)] = {"kind": "include"}
     for c in cases:
         c["blank"] = rng.choice([" ", "  ", " \t "])     # irregular blank runs make shifted offsets visible
+        if rng.random() < 0.15:
+            c["nl"] = "\r\n"                             # CRLF line ends (two bytes per line break in every offset)
     vlib.log("C03: %d cases" % len(cases))
 
     def extra(c, env, call, texts):
